@@ -38,6 +38,36 @@ func probe() bool {
 			}
 		}
 		fmt.Println("preempt: 200 cases placed", placed, "violations", bad)
+	case "elastic":
+		for k := int64(1); k <= 3; k += 2 {
+			in := encEnqueue(k, []eqQueue{{ID: 1, Open: 1, Mask: 1, CPU: 4000}},
+				[]eqJob{{ID: 1, Queue: 1, Phase: 3, MinMember: 1, NT: 4, TCPU: 1000, Running: 1}, {ID: 2, Queue: 1, Phase: 1, HasMin: 1, Mask: 1, CPU: 4000, MinMember: 1}})
+			fmt.Println(kindName(k), runEnqueueCase(in))
+		}
+	case "enqueue":
+		votesT, votesF, admitted, admittedMin := 0, 0, 0, 0
+		for i := 0; i < 300; i++ {
+			in := genEnqueueCase(rng.Fork())
+			o := runEnqueueCase(in)
+			_, qs, js := decEnqueue(in)
+			base := 2 + 7*len(qs) + 1
+			for k := range js {
+				f := o[base+15*k : base+15*k+15]
+				if f[14] == 1 {
+					votesT++
+				}
+				if f[14] == 0 {
+					votesF++
+				}
+				if f[2] == 1 && f[3] == 2 {
+					admitted++
+					if f[4] != 0 {
+						admittedMin++
+					}
+				}
+			}
+		}
+		fmt.Println("enqueue: 300 cases votes true", votesT, "false", votesF, "admitted", admitted, "with minResources", admittedMin)
 	}
 	return true
 }
